@@ -425,6 +425,25 @@ func init() {
 		}
 		return it.ts.UF(fmt.Sprintf("crc32c_%d", len(data)), 32, data...)
 	}
+	intercepts["github.com/couchbase/sync_gateway/base.IsRevTreeID"] = func(it *Interp, fn *ssa.Function, args []Value) Value {
+		// real body on ordinary strings; on a string that starts with a numeral segment the scan is summarised:
+		// decimal numeral followed by '-' => true; any numeral followed by a byte known not to be '-' => false
+		// (the scan stops at the first non-decimal character, which is inside a hex numeral or right after it).
+		sv := args[0].(*StrV)
+		if !sv.hasNum() {
+			return it.callBody(fn, args)
+		}
+		if len(sv.b) >= 2 && sv.b[0].op == OpNum && (sv.b[0].a == 10 || sv.b[0].a == 16) && sv.b[1].IsConst() {
+			nx := byte(sv.b[1].cval)
+			if nx == '-' && sv.b[0].a == 10 {
+				return it.ts.Bool(true)
+			}
+			if nx != '-' && !(nx >= '0' && nx <= '9') {
+				return it.ts.Bool(false)
+			}
+		}
+		panic(unsupported("IsRevTreeID on a numeral string of unknown shape"))
+	}
 	intercepts["github.com/couchbase/sync_gateway/base.AllOrNoneNil"] = func(it *Interp, fn *ssa.Function, args []Value) Value {
 		// reflect-based helper: true iff all arguments are nil or none is
 		vals := it.sliceVals(args[0].(*SliceV))
